@@ -27,6 +27,7 @@ import (
 	"github.com/nuts-foundation/nuts-node/pki"
 	"github.com/nuts-foundation/nuts-node/vdr/resolver"
 	"strings"
+	"time"
 )
 
 const (
@@ -54,6 +55,9 @@ var (
 
 	// ErrNoMatchingHeaderCredentials indicates that the x5t#S256 header does not match the certificate from the x5t headers.
 	ErrNoMatchingHeaderCredentials = errors.New("x5t#S256 header does not match the certificate from the x5t headers")
+
+	// ErrCertificateNotValidAtTime indicates that a certificate of the chain is expired or not yet valid at the time the DID is resolved for.
+	ErrCertificateNotValidAtTime = errors.New("x509 certificate chain is invalid: certificate is expired or not yet valid")
 
 	// ErrInvalidCertificateChain indicates that the signing certificate does not chain up to the CA certificate the DID refers to.
 	ErrInvalidCertificateChain = errors.New("x509 certificate chain is invalid: signing certificate is not issued by the CA certificate of the DID")
@@ -121,6 +125,17 @@ func (r Resolver) Resolve(id did.DID, metadata *resolver.ResolveMetadata) (*did.
 	// otherwise anyone could present the (public) CA certificate next to a certificate of their own making.
 	if err = validateChain(validationCert, rootCert, chain); err != nil {
 		return nil, nil, err
+	}
+	// The certificates must be within their validity period at the time the DID is resolved for: the key of an expired
+	// (or not yet valid) certificate is not a key of the DID.
+	validAt := time.Now()
+	if metadata.ResolveTime != nil {
+		validAt = *metadata.ResolveTime
+	}
+	for _, certificate := range chain {
+		if certificate != nil && (validAt.Before(certificate.NotBefore) || validAt.After(certificate.NotAfter)) {
+			return nil, nil, fmt.Errorf("%w: subject=%s, S/N=%s", ErrCertificateNotValidAtTime, certificate.Subject.String(), certificate.SerialNumber.String())
+		}
 	}
 
 	err = validatePolicy(ref, validationCert)
